@@ -750,3 +750,8 @@ pub fn intt_ps(polys: &mut [u64], pcount: usize, degree: usize, tables: &[NTTTab
         offset += d;
     }
 }
+
+// Verification hook (add-only): compiled only under `cargo kani` or `--cfg heathcliff_verif`.
+#[cfg(any(kani, heathcliff_verif))]
+#[path = "/verif/incrate/util_polysmallmod_v.rs"]
+pub(crate) mod verif_v;
